@@ -11,14 +11,14 @@ def RankOK (c : Ctx) (rank n : Nat) (ab : AB) : Prop :=
   Lsz c n ab = ((rank / (n + 1) : Nat) : Int) ∨
   (Lsz c n ab < ((rank / (n + 1) : Nat) : Int) ∧ ∀ j, j < c.runs.size → lenAt c j ≤ B ab j)
 
-theorem round_spec {c : Ctx} (hg : Good c) {n n' : Nat} (hn : n = 2 * n' + 1) (rank : Nat) {ab : AB}
-    (hinv : Inv c n ab) :
-    Spec (round c .partition (seqlenOf c) rank n' ab) (fun ab' => Inv c n' ab' ∧ RankOK c rank n' ab') := by
+theorem round_spec {c : Ctx} (hg : Good c) {r : Routine} {n n' : Nat} (hn : n = 2 * n' + 1) (rank : Nat) {ab : AB}
+    (hinv : Inv c r n ab) :
+    Spec (round c r (seqlenOf c) rank n' ab) (fun ab' => Inv c r n' ab' ∧ RankOK c rank n' ab') := by
   unfold round
   dsimp only
   have hrange : ∀ i ∈ List.range c.runs.size, i < c.runs.size := fun i hi => List.mem_range.mp hi
   -- lmax
-  have hscan := scanLmax_spec hg (ab := ab) (fun i hi => (hinv.str i hi).2.1) (List.range c.runs.size) [] none hrange
+  have hscan := scanLmax_spec hg r (ab := ab) (fun i hi => (hinv.str i hi).2.1) (List.range c.runs.size) [] none hrange
     (by intro d hd; cases hd) List.pairwise_lt_range (by intro i hi; cases hi)
   refine Spec.bind hscan ?_
   intro lm hlm
@@ -29,7 +29,7 @@ theorem round_spec {c : Ctx} (hg : Good c) {n n' : Nat} (hn : n = 2 * n' + 1) (r
     (fun i _ => ⟨rfl, rfl⟩)
   refine Spec.bind hcls ?_
   intro ab1 ⟨hsa1, hsb1, hpt⟩
-  have hinv1 : Inv c n' ab1 := by
+  have hinv1 : Inv c r n' ab1 := by
     refine classify_inv hg hn hinv hlmS hsa1 hsb1 ?_ ?_
     · intro i hi
       have := ((hpt i hi).1 (List.mem_range.mpr hi)).1
@@ -44,7 +44,7 @@ theorem round_spec {c : Ctx} (hg : Good c) {n n' : Nat} (hn : n = 2 * n' + 1) (r
     if ((rank / (n' + 1) : Nat) : Int) - Lsz c n' ab1 < 0 then
       (pqLeft c ab1.a (List.range c.runs.size) >>= fun pq =>
         moveRightLoop c n' (-(((rank / (n' + 1) : Nat) : Int) - Lsz c n' ab1)).toNat pq ab1) else pure ab1)
-    (fun ab' => Inv c n' ab' ∧ (Lsz c n' ab' = ((rank / (n' + 1) : Nat) : Int) ∨
+    (fun ab' => Inv c r n' ab' ∧ (Lsz c n' ab' = ((rank / (n' + 1) : Nat) : Int) ∨
       (Lsz c n' ab' < ((rank / (n' + 1) : Nat) : Int) ∧ ∀ j, j < c.runs.size → lenAt c j ≤ B ab' j)))
   generalize hT : ((rank / (n' + 1) : Nat) : Int) = T
   generalize hL1 : Lsz c n' ab1 = L1
@@ -55,7 +55,7 @@ theorem round_spec {c : Ctx} (hg : Good c) {n n' : Nat} (hn : n = 2 * n' + 1) (r
       simp only [A, B] at h0 h3 ⊢; omega) (List.range c.runs.size) hrange
     refine Spec.bind hpq ?_
     intro pq hpqR
-    refine Spec.mono (moveLeftLoop_spec hg n' _ pq ab1 hinv1 hpqR.toLoop) ?_
+    refine Spec.mono (moveLeftLoop_spec hg r n' _ pq ab1 hinv1 hpqR.toLoop) ?_
     intro ab' ⟨hinv', k, hk, hl, hor⟩
     refine ⟨hinv', ?_⟩
     rw [hL1] at hl
@@ -74,7 +74,7 @@ theorem round_spec {c : Ctx} (hg : Good c) {n n' : Nat} (hn : n = 2 * n' + 1) (r
       refine Spec.bind hpq ?_
       intro pq hpqL
       have hT0 : 0 ≤ T := by rw [← hT]; exact Int.natCast_nonneg _
-      refine Spec.mono (moveRightLoop_spec hg n' _ pq ab1 hinv1 hpqL.toLoop (by rw [hL1]; omega)) ?_
+      refine Spec.mono (moveRightLoop_spec hg r n' _ pq ab1 hinv1 hpqL.toLoop (by rw [hL1]; omega)) ?_
       intro ab' ⟨hinv', hl⟩
       rw [hL1] at hl
       exact ⟨hinv', Or.inl (by rw [hl]; omega)⟩
@@ -89,10 +89,10 @@ theorem odd_of_pow {n : Nat} (hn : 0 < n) (h : ∃ j, n + 1 = 2 ^ j) : n = 2 * (
 
 /-- **the whole refinement loop**: from the invariant at the initial stride to the invariant at stride 1,
 with the exact rank when at least one round ran -/
-theorem rounds_spec {c : Ctx} (hg : Good c) (rank : Nat) :
-    ∀ (fuel n : Nat) (ab : AB), n ≤ fuel → Inv c n ab →
-      Spec (rounds c .partition (seqlenOf c) rank fuel n ab)
-        (fun ab' => Inv c 0 ab' ∧ (n = 0 → ab' = ab) ∧ (0 < n → RankOK c rank 0 ab'))
+theorem rounds_spec {c : Ctx} (hg : Good c) (r : Routine) (rank : Nat) :
+    ∀ (fuel n : Nat) (ab : AB), n ≤ fuel → Inv c r n ab →
+      Spec (rounds c r (seqlenOf c) rank fuel n ab)
+        (fun ab' => Inv c r 0 ab' ∧ (n = 0 → ab' = ab) ∧ (0 < n → RankOK c rank 0 ab'))
   | 0, n, ab, hle, hinv => by
     have : n = 0 := by omega
     subst this
@@ -108,7 +108,7 @@ theorem rounds_spec {c : Ctx} (hg : Good c) (rank : Nat) :
       have hodd := odd_of_pow (by omega) hinv.pow
       refine Spec.bind (round_spec hg hodd rank hinv) ?_
       intro ab1 ⟨hinv1, hrank1⟩
-      refine Spec.mono (rounds_spec hg rank fuel (n / 2) ab1 (by omega) hinv1) ?_
+      refine Spec.mono (rounds_spec hg r rank fuel (n / 2) ab1 (by omega) hinv1) ?_
       intro ab2 ⟨hinv2, hsame, hrank2⟩
       refine ⟨hinv2, fun h => (hn0 h).elim, fun _ => ?_⟩
       by_cases hh : n / 2 = 0
